@@ -9,9 +9,16 @@ import (
 	"gobmc/vsched"
 )
 
-func Bool(name string) bool           { return false }
-func Int(name string, lo, hi int) int { return lo }
-func Byte(name string) byte           { return 0 }
+func Bool(name string) bool {
+	v, _ := vsched.Input(name, "")
+	return v != 0
+}
+func Int(name string, lo, hi int) int {
+	if v, ok := vsched.Input(name, ""); ok {
+		return int(v)
+	}
+	return lo
+}
 func Assume(c bool)                   {}
 func Assert(c bool, id string) {
 	if !c {
@@ -35,7 +42,20 @@ func CallFunc(f func()) { f() }
 func Atomic(fn func()) { fn() }
 
 // Bytes returns an arbitrary byte slice with len <= maxLen and len <= cap <= maxCap.
-func Bytes(name string, maxLen, maxCap int) []byte { return nil }
+func Bytes(name string, maxLen, maxCap int) []byte {
+	ln, ok1 := vsched.Input(name, ".len")
+	cp, ok2 := vsched.Input(name, ".cap")
+	if !ok1 || !ok2 {
+		return nil
+	}
+	b := make([]byte, cp)
+	for i := range b {
+		if v, ok := vsched.Input(name, fmt.Sprintf("[%d]", i)); ok {
+			b[i] = byte(v)
+		}
+	}
+	return b[:ln]
+}
 
 // CancelAnytime lets the environment call cancel at an arbitrary moment.
 func CancelAnytime(cancel func()) { vsched.Go("env-cancel", cancel) }
